@@ -50,6 +50,7 @@ func snapOf(m *service.Message) msgSnap {
 	return s
 }
 
+//go:norace
 func (w *world) startService() {
 	h := &svcHarness{w: w}
 	w.svc = h
@@ -76,6 +77,7 @@ func (w *world) startService() {
 	simrt.GoNamed("svc.Run", "svc.Run", h.srv.Run)
 }
 
+//go:norace
 func connOfPeer(p *simnet.Peer) int {
 	if p == nil {
 		return -1
@@ -88,6 +90,8 @@ func connOfPeer(p *simnet.Peer) int {
 
 // modelTable: one constructor per terminal-originated message ID that has a model type (the default table's
 // terminal side). Custom handlers embed these exactly like the README pattern does.
+//
+//go:norace
 func modelTable(dialect int) map[consts.JT808CommandType]func() service.JT808Handler {
 	as := consts.ActiveSafetyType(dialect)
 	return map[consts.JT808CommandType]func() service.JT808Handler{
@@ -147,6 +151,10 @@ type recEventer struct {
 
 //go:norace
 func (r *recEventer) OnJoinEvent(msg *service.Message, key string, err error) {
+	if simrt.RaceMode {
+		touch(msg)
+		return
+	}
 	e := evOfMsg(KJoin, r.conn, "eventer", msg)
 	e.Key = key
 	if err != nil {
@@ -243,6 +251,7 @@ func touch(m *service.Message) byte {
 
 // ---- platform callers ----
 
+//go:norace
 func (w *world) startCall(actor string, c *CallSpec) {
 	w.calls++
 	n := w.calls
